@@ -154,6 +154,24 @@ pub fn run(ctx: &mut Ctx) {
             let (w, tag) = gen_word(ctx, r, &rs, i);
             eval(ctx, r, &rs, &w, tag);
         }
+        // words in the neighbourhood of what the crate's OWN encoder calls a codeword (data + encode_error): if the
+        // encoder and the decoder ever agree on something other than the standard's code, success is reported here on
+        // words that the independent syndromes reject
+        for i in 0..ctx.budget(16 * 6, 16 * 200) as usize {
+            let data = ctx.rng.bytes(r.data);
+            let size = r.size;
+            let Ok(ecc) = guard(|| encode_error(&data, size)) else { continue };
+            let mut w = data;
+            w.extend(ecc);
+            if w.len() != r.total() {
+                continue;
+            }
+            let t = r.k() / 2;
+            let weights: Vec<usize> = (0..r.blocks).map(|b| if i % 3 == 0 { 0 } else { ctx.rng.below(t + 1).min(r.block_positions(b).len() - 1) }).collect();
+            let pat = pattern(&mut ctx.rng, r, &weights);
+            let w = apply(&w, &pat);
+            eval(ctx, r, &rs, &w, "near_the_crates_own_encoder_output");
+        }
     }
     // 10x10: codeword + weight-3 patterns (t = 2), sampled
     let r = cat::by_name("Square10").unwrap();
